@@ -38,7 +38,9 @@ def check_copy_arms(ctx, F):
         root = F.trace(c, "warm_start")
         w = F.focus(c, root)
         eng = w.eng
-        ca = first_call(root, "_copy_arms", recv_not=None)
+        # the activation that walks the mapping (an override may wrap it with super()._copy_arms(...))
+        cas = [ev for ev, _ in calls_of(root, name="_copy_arms")]
+        ca = next((ev for ev in cas if any(e.kind == "for" for e in ev.children)), cas[0] if cas else None)
         if ca is None or ca.a["callee"].is_trivial():
             ctx.undecided("R13.1", "%s: _copy_arms not reached from warm_start" % cls, construct=cls + "._copy_arms",
                           where=cls)
@@ -193,6 +195,23 @@ def check_mapping(ctx):
         ok_guard = ok_sel and T(guards[0].test) in ("%s <= %s" % (dist, thr), "%s >= %s" % (thr, dist)) and \
             not guards[0].orelse
         ok = ok_outer and ok_inner and ok_sel and ok_guard
+        if not ok and form is None:
+            # form B: closest_distance, closest_arm = min((D[cold][a], a) for a in <trained arms>)
+            from .pattern import find
+            nb, bb = find("_CD_, _CL_ = min(((_EV_, _A_) for _A_ in _ES_))", lo)
+            if nb is None:
+                nb, bb = find("_CD_, _CL_ = min([(_EV_, _A_) for _A_ in _ES_])", lo)
+            if nb is not None:
+                srcb = _inline(fn.node, ast.parse(bb["_ES_"], mode="eval").body, stop={mapname})
+                valb = " ".join(ast.unparse(_inline(fn.node, ast.parse(bb["_EV_"], mode="eval").body,
+                                                    stop={mapname})).split())
+                ok_inner = _subset_of_trained(srcb) and valb == "%s[%s][%s]" % (dft, cold, bb["_A_"])
+                ok_sel = len(stores) == 1 and len(guards) == 1 and ast.unparse(stores[0].value) == bb["_CL_"]
+                tb = ast.unparse(guards[0].test) if guards else ""
+                ok_guard = ok_sel and tb in ("%s <= %s" % (bb["_CD_"], T(ast.parse(thr, mode="eval").body)),) or (
+                    ok_sel and " ".join(ast.unparse(_inline(fn.node, guards[0].test, stop={mapname, bb["_CD_"]}))
+                                        .split()) in ("%s <= %s" % (bb["_CD_"], thr), "%s >= %s" % (thr, bb["_CD_"])))
+                ok = ok_outer and ok_inner and ok_sel and bool(ok_guard)
         detail = "outer over cold_arms: %s, candidates from trained_arms: %s, argmin over candidates: %s, inclusive " \
                  "guard: %s" % (ok_outer, ok_inner, ok_sel, ok_guard)
     ctx.check(ok, "R13.3", "the mapping sends each cold arm to its closest trained arm if the distance does not exceed "
@@ -276,9 +295,47 @@ for _C_, _W_ in _M_.items():
                         cold_names.add(ast.unparse(a.node.target.elts[0]))
                 keyed = ktxt in cold_names
             whole = ev.fn is not None and ev.fn.name in ("_expectation_operation", "_normalize_expectations")
+            # invalidation of a derived field (`self.cache = None`) is not a write to any arm's learned state
+            v = ev.a.get("value")
+            if ev.a["step"].startswith(".") and v is not None and v.has_const and v.const is None:
+                whole = True
             ctx.check(keyed or whole, "R13.4", "warm_start writes only entries of cold arms (or re-derives a whole "
                       "dictionary)", ev.node, ev.fn, "store not keyed by the cold arm [%s]" % c.name)
     ctx.floor("R13.4", "stores on warm_start traces", n, 25)
+
+
+def check_status_transitions(ctx, F):
+    """R13.5: an arm stops being warm only through a (non-partial) fit. The warm flag and its donor are written by
+    _warm_start and inside a fit activation only; remove_arm, add_arm, partial_fit and the predictions never touch
+    them (add_arm / remove_arm create and drop whole records)."""
+    n = 0
+    g = ctx.prog.modules["base_mab"].globals
+    warm_keys = tuple(g[k].value for k in ("IS_WARM", "WARM_STARTED_BY") if k in g and isinstance(g[k], ast.Constant))
+    if len(warm_keys) != 2:
+        ctx.undecided("R13.5", "status keys IS_WARM / WARM_STARTED_BY are not module constants of base_mab",
+                      construct="base_mab status keys", where="mabwiser/base_mab.py")
+        return
+    for c in F.configs(np_=[None]):
+        if LP_CLASS[c.lp] == "_Random":
+            continue
+        for lab in F.entry_labels(c):
+            root = F.trace(c, lab)
+            F.focus(c, root)
+            for ev, anc in walk(root):
+                if ev.kind != "store":
+                    continue
+                ts = [t for t in ev.a["targets"] if t.field == "arm_to_status" and len(t.sub) == 2]
+                key = ev.a.get("key")
+                if not ts or key is None or not key.has_const or key.const not in warm_keys:
+                    continue
+                n += 1
+                inside = [a.a["callee"].name for a in anc if a.kind == "call"]
+                ok = "_warm_start" in inside or "fit" in inside
+                ctx.check(ok, "R13.5", "the warm status of an arm is written by warm_start and by fit only", ev.node,
+                          ev.fn, "%s writes `%s` of a status record outside _warm_start / fit (call chain %s): an "
+                          "arm that was warm started can become cold again and be warm started a second time [%s]" %
+                          (lab, key.const, " -> ".join(inside), c.name))
+    ctx.floor("R13.5", "writes of the warm status on traces", n, 30)
 
 
 def check(ctx):
@@ -290,3 +347,5 @@ def check(ctx):
     check_copy_arms(ctx, F)
     check_mapping(ctx)
     check_status(ctx, F)
+    ctx.rule("R13.5", "warm status is written by _warm_start and inside fit only")
+    check_status_transitions(ctx, F)
